@@ -51,6 +51,8 @@ func buildDesc(inp M) (in []byte, data []byte) {
 				b.Write(wire(map[string]string{"g": pkcs7GUIDWire}, "g"))
 			} else if str(inp, "guid") == "zero" {
 				b.Write(make([]byte, 16)) // the all-zero GUID is a type GUID like any other
+			} else if str(inp, "guid") == "d1zero" {
+				b.Write([]byte{0, 0, 0, 0, 0x34, 0x12, 0x78, 0x56, 0x9a, 0xbc, 0xde, 0xf0, 0x12, 0x34, 0x56, 0x78}) // first field zero, the others not
 			} else if str(inp, "guid") == "ones" {
 				b.Write(bytes.Repeat([]byte{0xff}, 16))
 			} else {
